@@ -38,9 +38,55 @@ class Deps:
             if lf[0] == "var":
                 for d in lf[2]:
                     out |= self._of_def(lf[1], d)
+                out |= self._container_deps(lf[1])
             elif lf[0] in ("param", "self", "global"):
                 out.add(lf)
         return frozenset(out)
+
+    def _container_deps(self, name: str) -> FrozenSet[Term]:
+        """Element stores ``name[i] = v`` and in-place method calls ``name.m(args)`` anywhere in the function contribute
+        their index, value, arguments and control dependences (flow-insensitive)."""
+        key = (name + "[]", -1)
+        if key in self._memo:
+            return self._memo[key]
+        if key in self._active:
+            return frozenset()
+        self._active.add(key)
+        cfg = self.fa.cfg
+        out: Set[Term] = set()
+        for n in cfg.nodes:
+            hit = False
+            for var, tgt, val in cfg.defs_at(n):
+                if var == name + "[]":
+                    hit = True
+                    if isinstance(tgt, ast.Subscript):
+                        out |= self.of(tgt.slice, n)
+                    nd = cfg.nodes[n]
+                    if nd.kind == "stmt" and isinstance(nd.ast, (ast.Assign, ast.AugAssign)):
+                        out |= self.of(nd.ast.value, n)
+            for c in cfg.calls_at(n):
+                f = c.func
+                if isinstance(f, ast.Attribute) and f.attr.endswith("_") | (f.attr in ("append", "extend", "insert", "update",
+                                                                                          "add", "sort", "remove")):
+                    base = f.value
+                    bn = base.id if isinstance(base, ast.Name) else (
+                        f"{base.value.id}.{base.attr}" if isinstance(base, ast.Attribute) and isinstance(base.value, ast.Name)
+                        else None)
+                    if bn == name:
+                        hit = True
+                        for a in list(c.args) + [k.value for k in c.keywords]:
+                            out |= self.of(a, n)
+            if hit and self.control:
+                for t_, lab in cfg.control_predicates(n):
+                    tn = cfg.nodes[t_]
+                    if tn.kind == "test":
+                        out |= self.of(tn.ast, t_)
+                    elif tn.kind == "next":
+                        out |= self.of(tn.owner.iter, cfg.stmt_node[tn.owner])
+        self._active.discard(key)
+        res = frozenset(out)
+        self._memo[key] = res
+        return res
 
     def _of_def(self, var: str, d: int) -> FrozenSet[Term]:
         key = (var, d)
